@@ -81,10 +81,11 @@ class SsbScriptSsbDecompiler:
         self._source_map_builder = SourceMapBuilder()
 
         # Step 1: Build labels
+        # (into a local list: self._routine_ops stays what the caller gave us, convert() can be called again)
         resolver = OpsLabelJumpToResolver(self._routine_ops)
-        self._routine_ops = list(resolver)
+        routine_ops = list(resolver)
 
-        for r_id, (r_info, r_ops) in enumerate(zip(self._routine_infos, self._routine_ops)):
+        for r_id, (r_info, r_ops) in enumerate(zip(self._routine_infos, routine_ops)):
             logger.debug(
                 "Decompiling (%d, %s)...",
                 r_id,
